@@ -99,7 +99,7 @@ Definition acc_pay (acc : option (N * bytes)) : bytes :=
 
 Lemma packet_f_full_step f lim acc q body rest x :
   acc_ok acc q -> try_full lim x = Some (q, body, rest) ->
-  packet_f (S f) lim acc x = packet_f f lim (Some (q, acc_pay acc ++ body)) rest.
+  packet_f (S f) lim acc true x = packet_f f lim (Some (q, acc_pay acc ++ body)) true rest.
 Proof.
   intros Hacc Hfull. cbn [packet_f]. rewrite Hfull.
   destruct acc as [[q0 p0]|]; cbn [acc_ok acc_pay app] in *.
@@ -109,7 +109,7 @@ Qed.
 
 Lemma packet_f_one_step f lim acc q body rest x :
   acc_ok acc q -> try_full lim x = None -> try_one x = Some (q, body, rest) ->
-  packet_f (S f) lim acc x = PDone q (acc_pay acc ++ body) rest.
+  packet_f (S f) lim acc true x = PDone q (acc_pay acc ++ body) rest.
 Proof.
   intros Hacc Hfull Hone. cbn [packet_f]. rewrite Hfull, Hone.
   destruct acc as [[q0 p0]|]; cbn [acc_ok acc_pay app] in *.
@@ -117,8 +117,8 @@ Proof.
   - reflexivity.
 Qed.
 
-Lemma packet_f_need f lim acc x :
-  try_full lim x = None -> try_one x = None -> packet_f (S f) lim acc x = PNeed.
+Lemma packet_f_need f lim acc ok x :
+  try_full lim x = None -> try_one x = None -> packet_f (S f) lim acc ok x = PNeed.
 Proof. intros Hfull Hone. cbn [packet_f]. rewrite Hfull, Hone. reflexivity. Qed.
 
 Lemma succ_lt256 q : (q + 1) mod 256 < 256.
@@ -129,7 +129,7 @@ Proof. apply N.mod_lt. lia. Qed.
 Lemma packet_f_frame lim : 0 < lim -> lim < 2 ^ 24 ->
   forall n p, (length p < n)%nat -> forall fuel q acc rest,
   q < 256 -> acc_ok acc q -> (length (frame lim q p ++ rest) < fuel)%nat ->
-  packet_f fuel lim acc (frame lim q p ++ rest) = PDone (last_seq lim q p) (acc_pay acc ++ p) rest.
+  packet_f fuel lim acc true (frame lim q p ++ rest) = PDone (last_seq lim q p) (acc_pay acc ++ p) rest.
 Proof.
   intros Hlim Hlim24. induction n as [|n IH]; intros p Hn fuel q acc rest Hq Hacc Hfuel; [lia|].
   destruct fuel as [|f]; [lia|].
@@ -159,7 +159,7 @@ Qed.
 Lemma packet_f_prefix lim : 0 < lim -> lim < 2 ^ 24 ->
   forall n p, (length p < n)%nat -> forall fuel q acc x y,
   q < 256 -> acc_ok acc q -> x ++ y = frame lim q p -> y <> [] -> (length x < fuel)%nat ->
-  packet_f fuel lim acc x = PNeed.
+  packet_f fuel lim acc true x = PNeed.
 Proof.
   intros Hlim Hlim24. induction n as [|n IH]; intros p Hn fuel q acc x y Hq Hacc Heq Hy Hfuel; [lia|].
   destruct fuel as [|f]; [lia|].
@@ -239,7 +239,7 @@ Lemma next_f_S f s :
   next_f (S f) s =
     match packet (s_lim s) (s_buf s) with
     | PDone q p rest => (ROk (Some (q, p)), set_buf rest s)
-    | PPanicSeq => (RPanic PFragSeq, s)
+    | PBadSeq => (RErr EInvalidData, s)
     | PFuel => (RPanic POutOfFuel, s)
     | PNeed =>
         match t_read s with
